@@ -10,7 +10,7 @@ open RegexVerif.VM RegexVerif.Code RegexVerif.Writer RegexVerif.Generated.Opcode
 open RegexVerif.Lemmas.VM
 
 section loops
-variable {X : Setup} {TPx : TP} {sets : List (List Nat)} {a : Nat} {T S : List Int} {C : List (Nat × Nat × Nat)}
+variable {X : Setup} {TPx : TP} {sets : List (List Nat)} {a : Nat} {T S : List Int} {C : List (Nat × Nat × Nat)} {v : Int}
 
 /-- the `for` loop of the single-character instructions counts the run of the predicate, up to `k` -/
 theorem scan_spec (hrel : EnvRel TPx sets X.env X.se) {pred : Nat → Bool} {P : Pred} (hpr : ∀ r, pred r = P.test X.se r) :
@@ -37,7 +37,7 @@ theorem scan_spec (hrel : EnvRel TPx sets X.env X.se) {pred : Nat → Bool} {P :
 
 /-- `Onerep / Notonerep / Setrep  x lo`: exactly `lo` characters of the predicate -/
 theorem rep_delivers (hrel : EnvRel TPx sets X.env X.se) {i : Nat} {s : VMState} (hi : i ≤ X.se.n)
-    (he : Entry X a i T S C s) {sel lo : Nat} {x : Int} {P : Pred} {ins : Instr} (hia : InstrAt X.p a ins)
+    (he : Entry X a i (T ++ [v]) S C s) {sel lo : Nat} {x : Int} {P : Pred} {ins : Instr} (hia : InstrAt X.p a ins)
     (hx : ins.args[0]? = some x) (hlo : ins.args[1]? = some (lo : Int))
     (hbody : VM.body X.p X.env s = VM.caseRep X.p X.env sel s) (hrtl : s.oper.rtl = false)
     (hpred : PredOk X sel x P) (hf : ∃ w, VM.fetch X.p (a + 3) = .ok w) :
@@ -105,47 +105,47 @@ theorem loopBack_delivers {i : Nat} {ins : Instr} (hia : InstrAt X.p a ins) {o :
     (hbody : ∀ s2 : VMState, s2.oper = { decode ins.op with back := true } →
       VM.body X.p X.env s2 = VM.caseLoopBack s2)
     (hrtl : (decode ins.op).rtl = false) (hf : ∃ w, VM.fetch X.p (a + 3) = .ok w) :
-    ∀ (j : Nat) (s : VMState), FailAt X ((a : Int) :: ((i + j : Nat) : Int) :: (j : Int) :: T) S C s →
+    ∀ (j : Nat) (v : Int) (s : VMState), FailAt X ((a : Int) :: ((i + j : Nat) : Int) :: (j : Int) :: (T ++ [v])) S C s →
       Delivers X (a + 3) T S S C (downFrom i j C) s := by
   obtain ⟨w, hw⟩ := hf
   intro j
   induction j with
   | zero =>
-    intro s hfail
+    intro v s hfail
     obtain ⟨s2, chk, hst, hbe⟩ := fail_step hfail hia.fetch
     refine Delivers.of_step hst ?_
     rw [downFrom_zero]
-    have hb : VM.body X.p X.env s2 = .ok (VM.textto { s2 with track := T } ((i + 0 : Nat) : Int), .advance 2) := by
+    have hb : VM.body X.p X.env s2 = .ok (VM.textto { s2 with track := T ++ [v] } ((i + 0 : Nat) : Int), .advance 2) := by
       rw [hbody s2 hbe.op]; unfold VM.caseLoopBack
       simp [hbe.tr]
-    refine Delivers.single (Leads.of_step (step_adv hb (by simp only [VM.textto, hbe.pc]; exact hw)) (Leads.here ?_)) rfl
+    refine Delivers.single (v := v) (Leads.of_step (step_adv hb (by simp only [VM.textto, hbe.pc]; exact hw)) (Leads.here ?_)) rfl
     exact ⟨by simp [VM.textto, hbe.pc], hw, by simp [VM.textto], rfl, hbe.st, hbe.cap⟩
   | succ j ih =>
-    intro s hfail
+    intro v s hfail
     obtain ⟨s2, chk, hst, hbe⟩ := fail_step hfail hia.fetch
     refine Delivers.of_step hst ?_
     rw [downFrom_succ]
     have hbump : VM.bump s2 = 1 := by simp [VM.bump, hbe.op, hrtl]
     have hb : VM.body X.p X.env s2 =
-        .ok (VM.push2 (VM.textto { s2 with track := T } ((i + (j + 1) : Nat) : Int)) (((j + 1 : Nat) : Int) - 1)
+        .ok (VM.push2 (VM.textto { s2 with track := T ++ [v] } ((i + (j + 1) : Nat) : Int)) (((j + 1 : Nat) : Int) - 1)
           (((i + (j + 1) : Nat) : Int) - 1), .advance 2) := by
       rw [hbody s2 hbe.op]; unfold VM.caseLoopBack
       have : ((j + 1 : Nat) : Int) > 0 := by omega
       simp [hbe.tr, this, hbump]
-    refine ⟨[(a : Int), ((i + j : Nat) : Int), (j : Int)], loop_frame hia ho hfd _ _, ?_, ?_⟩
+    refine Delivers.cons (v := v) [(a : Int), ((i + j : Nat) : Int), (j : Int)] (loop_frame hia ho hfd _ _) ?_ ?_
     · have e1 : ((i + (j + 1) : Nat) : Int) - 1 = ((i + j : Nat) : Int) := by omega
       have e2 : ((j + 1 : Nat) : Int) - 1 = (j : Int) := by omega
       rw [e1, e2] at hb
       refine Leads.of_step (step_adv hb (by simp only [VM.push2, VM.textto, hbe.pc]; exact hw)) (Leads.here ?_)
       exact ⟨by simp [VM.push2, VM.textto, hbe.pc], hw, by simp [VM.push2, VM.textto],
         by simp [VM.push2, VM.textto, hbe.pc], hbe.st, hbe.cap⟩
-    · intro s'' hf''
-      exact ih s'' (by simpa using hf'')
+    · intro s'' v' hf''
+      exact ih v' s'' (by simpa using hf'')
 
 /-- `Oneloop / Notoneloop / Setloop  x cmax` and the atomic variants: as many characters of the predicate as there
     are, up to `cmax` -/
 theorem loop_delivers (hrel : EnvRel TPx sets X.env X.se) {i : Nat} {s : VMState} (hi : i ≤ X.se.n)
-    (he : Entry X a i T S C s) {sel cmax : Nat} {atomic : Bool} {x : Int} {P : Pred} {ins : Instr}
+    (he : Entry X a i (T ++ [v]) S C s) {sel cmax : Nat} {atomic : Bool} {x : Int} {P : Pred} {ins : Instr}
     (hia : InstrAt X.p a ins) (hx : ins.args[0]? = some x) (hc : ins.args[1]? = some (cmax : Int)) {o : VM.Op}
     (ho : Op.ofNat? (decode ins.op).op = some o) (hfd : atomic = false → VM.frameData o false = some 2)
     (hbody : VM.body X.p X.env s = VM.caseLoop X.p X.env sel atomic s)
@@ -199,7 +199,7 @@ theorem loop_delivers (hrel : EnvRel TPx sets X.env X.se) {i : Nat} {s : VMState
       have hb : VM.body X.p X.env s = .ok (VM.push2 (VM.textto s ((i : Int) + ((k + 1 : Nat) : Int)))
           (((k + 1 : Nat) : Int) - 1) ((i : Int) + ((k + 1 : Nat) : Int) - 1), .advance 2) := by
         rw [hbcommon]; simp
-      refine ⟨[(a : Int), ((i + k : Nat) : Int), (k : Int)], loop_frame hia ho (hfd rfl) _ _, ?_, ?_⟩
+      refine Delivers.cons (v := v) [(a : Int), ((i + k : Nat) : Int), (k : Int)] (loop_frame hia ho (hfd rfl) _ _) ?_ ?_
       · have e1 : (i : Int) + ((k + 1 : Nat) : Int) - 1 = ((i + k : Nat) : Int) := by omega
         have e2 : ((k + 1 : Nat) : Int) - 1 = (k : Int) := by omega
         have e3 : (i : Int) + ((k + 1 : Nat) : Int) = ((i + (k + 1) : Nat) : Int) := by omega
@@ -207,8 +207,8 @@ theorem loop_delivers (hrel : EnvRel TPx sets X.env X.se) {i : Nat} {s : VMState
         refine Leads.of_step (step_adv hb (by simp only [VM.push2, VM.textto, he.pc]; exact hw)) (Leads.here ?_)
         exact ⟨by simp [VM.push2, VM.textto, he.pc], hw, by simp [VM.push2, VM.textto],
           by simp [VM.push2, VM.textto, he.pc, he.tr], he.st, he.cap⟩
-      · intro s'' hf''
-        exact loopBack_delivers hia ho (hfd rfl) (hback rfl) hrtl ⟨w, hw⟩ k s'' (by simpa using hf'')
+      · intro s'' v' hf''
+        exact loopBack_delivers hia ho (hfd rfl) (hback rfl) hrtl ⟨w, hw⟩ k v' s'' (by simpa using hf'')
 
 /-- the positions a lazy loop offers after the first one, nearest first -/
 def upFrom (q k : Nat) (C : List (Nat × Nat × Nat)) : List St := (List.range k).map (fun t => ⟨q + 1 + t, C⟩)
@@ -230,15 +230,15 @@ theorem lazyBack_delivers (hrel : EnvRel TPx sets X.env X.se) {sel : Nat} {x : I
     (hbody : ∀ s2 : VMState, s2.oper = { decode ins.op with back := true } →
       VM.body X.p X.env s2 = VM.caseLazyBack X.p X.env sel s2)
     (hrtl : (decode ins.op).rtl = false) (hpred : PredOk X sel x P) (hf : ∃ w, VM.fetch X.p (a + 3) = .ok w) :
-    ∀ (j q : Nat) (s : VMState), q + j + 1 ≤ X.se.n →
-      FailAt X ((a : Int) :: (q : Int) :: (j : Int) :: T) S C s →
+    ∀ (j q : Nat) (v : Int) (s : VMState), q + j + 1 ≤ X.se.n →
+      FailAt X ((a : Int) :: (q : Int) :: (j : Int) :: (T ++ [v])) S C s →
       Delivers X (a + 3) T S S C (upFrom q (min (j + 1) (runLen X.se P q)) C) s := by
   obtain ⟨pred, hcp, hpr⟩ := hpred
   obtain ⟨w, hw⟩ := hf
   intro j
   induction j with
   | zero =>
-    intro q s hq hfail
+    intro q v s hq hfail
     obtain ⟨s2, chk, hst, hbe⟩ := fail_step hfail hia.fetch
     refine Delivers.of_step hst ?_
     obtain ⟨c, hc, hch⟩ := charAt_lt hrel q (by omega)
@@ -252,24 +252,24 @@ theorem lazyBack_delivers (hrel : EnvRel TPx sets X.env X.se) {sel : Nat} {x : I
       have hR := runLen_of_acc ha
       have : min (0 + 1) (runLen X.se P q) = 0 + 1 := by omega
       rw [this, upFrom_succ]
-      have hb : VM.body X.p X.env s2 = .ok (VM.textto { s2 with track := T } ((q : Int) + 1), .advance 2) := by
+      have hb : VM.body X.p X.env s2 = .ok (VM.textto { s2 with track := T ++ [v] } ((q : Int) + 1), .advance 2) := by
         rw [hbody s2 hbe.op]; unfold VM.caseLazyBack
         simp only [hbe.tr, bind, Except.bind, hop0, hcp, hsrtl, hfn, hp, if_true, pure, Except.pure]
         simp
       have : upFrom (q + 1) 0 C = [] := rfl
       rw [this]
-      refine Delivers.single (r := ⟨q + 1, C⟩)
+      refine Delivers.single (r := ⟨q + 1, C⟩) (v := v)
         (Leads.of_step (step_adv hb (by simp only [VM.textto, hbe.pc]; exact hw)) (Leads.here ?_)) rfl
       exact ⟨by simp [VM.textto, hbe.pc], hw, by simp [VM.textto], rfl, hbe.st, hbe.cap⟩
     · have ha : acc X.se P q = false := by rw [hacc, ← hpr]; simpa using hp
       rw [runLen_of_not_acc ha]
-      have hb : VM.body X.p X.env s2 = .ok (VM.textto { s2 with track := T } ((q : Int) + 1), .back) := by
+      have hb : VM.body X.p X.env s2 = .ok (VM.textto { s2 with track := T ++ [v] } ((q : Int) + 1), .back) := by
         rw [hbody s2 hbe.op]; unfold VM.caseLazyBack
         simp only [hbe.tr, bind, Except.bind, hop0, hcp, hsrtl, hfn, hp, pure, Except.pure]
         simp
-      exact Leads.here ⟨_, hb, rfl, hbe.st, hbe.cap⟩
+      exact Delivers.fail (v := v) (Leads.here ⟨_, hb, rfl, hbe.st, hbe.cap⟩)
   | succ j ih =>
-    intro q s hq hfail
+    intro q v s hq hfail
     obtain ⟨s2, chk, hst, hbe⟩ := fail_step hfail hia.fetch
     refine Delivers.of_step hst ?_
     obtain ⟨c, hc, hch⟩ := charAt_lt hrel q (by omega)
@@ -284,31 +284,31 @@ theorem lazyBack_delivers (hrel : EnvRel TPx sets X.env X.se) {sel : Nat} {x : I
       have hR := runLen_of_acc ha
       have : min (j + 1 + 1) (runLen X.se P q) = min (j + 1) (runLen X.se P (q + 1)) + 1 := by omega
       rw [this, upFrom_succ]
-      have hb : VM.body X.p X.env s2 = .ok (VM.push2 (VM.textto { s2 with track := T } ((q : Int) + 1))
+      have hb : VM.body X.p X.env s2 = .ok (VM.push2 (VM.textto { s2 with track := T ++ [v] } ((q : Int) + 1))
           (((j + 1 : Nat) : Int) - 1) ((q : Int) + 1), .advance 2) := by
         rw [hbody s2 hbe.op]; unfold VM.caseLazyBack
         have hj : ((j + 1 : Nat) : Int) > 0 := by omega
         simp only [hbe.tr, bind, Except.bind, hop0, hcp, hsrtl, hfn, hp, if_true, pure, Except.pure, hj, hbump]
-      refine ⟨[(a : Int), ((q + 1 : Nat) : Int), (j : Int)], loop_frame hia ho hfd _ _, ?_, ?_⟩
+      refine Delivers.cons (v := v) [(a : Int), ((q + 1 : Nat) : Int), (j : Int)] (loop_frame hia ho hfd _ _) ?_ ?_
       · have e1 : (q : Int) + 1 = ((q + 1 : Nat) : Int) := by omega
         have e2 : ((j + 1 : Nat) : Int) - 1 = (j : Int) := by omega
         rw [e2, e1] at hb
         refine Leads.of_step (step_adv hb (by simp only [VM.push2, VM.textto, hbe.pc]; exact hw)) (Leads.here ?_)
         exact ⟨by simp [VM.push2, VM.textto, hbe.pc], hw, by simp [VM.push2, VM.textto],
           by simp [VM.push2, VM.textto, hbe.pc], hbe.st, hbe.cap⟩
-      · intro s'' hf''
-        exact ih (q + 1) s'' (by omega) (by simpa using hf'')
+      · intro s'' v' hf''
+        exact ih (q + 1) v' s'' (by omega) (by simpa using hf'')
     · have ha : acc X.se P q = false := by rw [hacc, ← hpr]; simpa using hp
       rw [runLen_of_not_acc ha]
-      have hb : VM.body X.p X.env s2 = .ok (VM.textto { s2 with track := T } ((q : Int) + 1), .back) := by
+      have hb : VM.body X.p X.env s2 = .ok (VM.textto { s2 with track := T ++ [v] } ((q : Int) + 1), .back) := by
         rw [hbody s2 hbe.op]; unfold VM.caseLazyBack
         simp only [hbe.tr, bind, Except.bind, hop0, hcp, hsrtl, hfn, hp, pure, Except.pure]
         simp
-      exact Leads.here ⟨_, hb, rfl, hbe.st, hbe.cap⟩
+      exact Delivers.fail (v := v) (Leads.here ⟨_, hb, rfl, hbe.st, hbe.cap⟩)
 
 /-- `Onelazy / Notonelazy / Setlazy  x cmax`: first no character, then one more at a time -/
 theorem lazy_delivers (hrel : EnvRel TPx sets X.env X.se) {i : Nat} {s : VMState} (hi : i ≤ X.se.n)
-    (he : Entry X a i T S C s) {sel cmax : Nat} {x : Int} {P : Pred} {ins : Instr}
+    (he : Entry X a i (T ++ [v]) S C s) {sel cmax : Nat} {x : Int} {P : Pred} {ins : Instr}
     (hia : InstrAt X.p a ins) (hx : ins.args[0]? = some x) (hc : ins.args[1]? = some (cmax : Int)) {o : VM.Op}
     (ho : Op.ofNat? (decode ins.op).op = some o) (hfd : VM.frameData o false = some 2)
     (hbody : VM.body X.p X.env s = VM.caseLazy X.p X.env s)
@@ -343,14 +343,14 @@ theorem lazy_delivers (hrel : EnvRel TPx sets X.env X.se) {i : Nat} {s : VMState
       simp only [bind, Except.bind, hop1, hce, pure, Except.pure]
       have : ((c + 1 : Nat) : Int) > 0 := by omega
       simp only [this, if_true]
-    refine ⟨[(a : Int), (i : Int), (c : Int)], loop_frame hia ho hfd _ _, ?_, ?_⟩
+    refine Delivers.cons (v := v) [(a : Int), (i : Int), (c : Int)] (loop_frame hia ho hfd _ _) ?_ ?_
     · have e2 : ((c + 1 : Nat) : Int) - 1 = (c : Int) := by omega
       rw [e2] at hb
       refine Leads.of_step (step_adv hb (by simp only [VM.push2, he.pc]; exact hw)) (Leads.here ?_)
       exact ⟨by simp [VM.push2, he.pc], hw, by simp [VM.push2, he.tp],
         by simp [VM.push2, he.pc, he.tr, he.tp], he.st, he.cap⟩
-    · intro s'' hf''
-      exact lazyBack_delivers hrel hia hx ho hfd hback hrtl hpred ⟨w, hw⟩ c i s'' (by omega) (by simpa using hf'')
+    · intro s'' v' hf''
+      exact lazyBack_delivers hrel hia hx ho hfd hback hrtl hpred ⟨w, hw⟩ c i v' s'' (by omega) (by simpa using hf'')
 
 /-- which predicate family a loop node type belongs to: 0 One, 1 Notone, 2 Set -/
 def selOf (t : Nat) : Nat :=
@@ -363,7 +363,7 @@ def kindList (t i k : Nat) (C : List (Nat × Nat × Nat)) : List St :=
 
 /-- the variable part `t x cmax` of a single-character loop node of type `t` -/
 theorem looppart_delivers (hrel : EnvRel TPx sets X.env X.se) {i : Nat} {s : VMState} (hi : i ≤ X.se.n)
-    (he : Entry X a i T S C s) {t sel cmax : Nat} {ci : Bool} {x : Int} {P : Pred}
+    (he : Entry X a i (T ++ [v]) S C s) {t sel cmax : Nat} {ci : Bool} {x : Int} {P : Pred}
     (ht : t ∈ charloopTypes ++ setloopTypes) (hselv : sel = selOf t)
     (hia : InstrAt X.p a (i2 (t ||| bits false ci) x (cmax : Int))) (hpred : PredOk X sel x P)
     (hf : ∃ w, VM.fetch X.p (a + 3) = .ok w) :
@@ -520,7 +520,7 @@ theorem looppart_delivers (hrel : EnvRel TPx sets X.env X.se) {i : Nat} {s : VMS
 
 /-- the fixed part `rep x lo` -/
 theorem reppart_delivers (hrel : EnvRel TPx sets X.env X.se) {i : Nat} {s : VMState} (hi : i ≤ X.se.n)
-    (he : Entry X a i T S C s) {r sel lo : Nat} {ci : Bool} {x : Int} {P : Pred}
+    (he : Entry X a i (T ++ [v]) S C s) {r sel lo : Nat} {ci : Bool} {x : Int} {P : Pred}
     (hr : (r = opOnerep ∧ sel = 0) ∨ (r = opNotonerep ∧ sel = 1) ∨ (r = opSetrep ∧ sel = 2))
     (hia : InstrAt X.p a (i2 (r ||| bits false ci) x (lo : Int))) (hpred : PredOk X sel x P)
     (hf : ∃ w, VM.fetch X.p (a + 3) = .ok w) :
@@ -633,7 +633,7 @@ theorem setloop_family : ∀ t ∈ setloopTypes, selOf t = 2 := by decide
 
 /-- **a single-character loop node**: `rep x m` (when `m > 0`) followed by `t x (n − m)` (when `n > m`) -/
 theorem loopnode_delivers (hrel : EnvRel TPx sets X.env X.se) (hN : X.se.n ≤ 2147483647) {i : Nat} {s : VMState}
-    (hi : i ≤ X.se.n) (he : Entry X a i T S C s) {t r sel : Nat} {ci : Bool} {x m n : Int} {P : Pred}
+    (hi : i ≤ X.se.n) (he : Entry X a i (T ++ [v]) S C s) {t r sel : Nat} {ci : Bool} {x m n : Int} {P : Pred}
     (ht : t ∈ charloopTypes ++ setloopTypes) (hselv : sel = selOf t)
     (hr : (r = opOnerep ∧ sel = 0) ∨ (r = opNotonerep ∧ sel = 1) ∨ (r = opSetrep ∧ sel = 2))
     (h0 : 0 ≤ m) (hmn : m ≤ n) (hn : n ≤ maxInt32)
@@ -658,7 +658,7 @@ theorem loopnode_delivers (hrel : EnvRel TPx sets X.env X.se) (hN : X.se.n ≤ 2
       exact Delivers.single (Leads.here he) rfl
   refine (Delivers.bind (X := X) (b := a + (if m > 0 then 3 else 0) + (if n > m then 3 else 0)) _ s hmid ?_).cast
     (by unfold repLen; omega) rfl
-  intro r' hr' F s' _ he'
+  intro r' hr' F s' v' _ he'
   have hr'eq : r' = ⟨i + m.toNat, C⟩ ∧ m.toNat ≤ runLen X.se P i := by
     split at hr'
     · next h => simp at hr'; exact ⟨hr', h⟩
@@ -681,7 +681,7 @@ theorem loopnode_delivers (hrel : EnvRel TPx sets X.env X.se) (hN : X.se.n ≤ 2
   · have hv : varMax m n = 0 := by simp [varMax, hnm]
     rw [if_neg hnm, hv]
     simp only [Nat.zero_min, kindList_zero, Nat.add_zero]
-    exact Delivers.single (Leads.here he') rfl
+    exact Delivers.single (v := v') (Leads.here he') rfl
 
 end loops
 
